@@ -1,8 +1,10 @@
 (** C17: the statements are not vacuous.  (a) a history in which the registry value for datetime really CHANGES
-    (plain function -> bound to instance 3 -> bound to instance 5) while dispatch keeps its semantics;
+    (plain function -> bound to instance 3 -> bound to instance 5) while dispatch keeps its semantics, under both
+    interpreter behaviours;
     (b) an interleaving that leaves a STALE cache entry (bound to 3) beside a registry entry bound to 5, every thread
     finishing with the specified outcome, thread 3 having been served the stale handler;
-    (c) the hypothesis on [fmt] is inhabited and needed: with an instance-dependent [fmt] history matters. *)
+    (c) the hypothesis is inhabited (both disjuncts) and needed: on an interpreter that does not rebind, with an
+    instance-dependent [fmt], history matters - and on one that rebinds it does not. *)
 From OfxV Require Import Base.Prelude Model.Dispatch Proofs.DispatchProofs.
 Local Open Scope N_scope.
 Definition i3 := Inst 3 false.
@@ -10,24 +12,27 @@ Definition i5 := Inst 5 true.
 Definition dv := PV TDatetime 7.
 Definition fmt0 (_ : inst) (v : pyval) : result text := if vid v =? 7 then OK (T "20240229") else Err Reject.
 Definition fmt_bad (i : inst) (v : pyval) : result text := if ireq i then OK (T "A") else OK (T "B").
+Definition hist6 := [ConvertStr i3 true; Unconvert i5 dv; ConvertStr i5 true; Unconvert i3 dv; Unconvert i5 (PV TNone 0); Unconvert i3 (PV TStr 1)].
 Definition progs4 := [[ConvertStr i3 true]; [Unconvert i5 dv]; [ConvertStr i5 true]; [Unconvert i3 dv; Unconvert i5 (PV TNone 0)]].
 Definition sched4 := [0;0;1;1;2;2;1;1;3;3;3;3;3;3]%nat.
 Theorem examples_nonvacuous :
   (forall i j v, fmt0 i v = fmt0 j v)
   /\ lookup TDatetime (registry init_state) = Some (UnconvDatetime None)
-  /\ lookup TDatetime (registry (fst (run_ops true fmt0 init_state [ConvertStr i3 true]))) = Some (UnconvDatetime (Some i3))
-  /\ lookup TDatetime (registry (fst (run_ops true fmt0 init_state [ConvertStr i3 true; Unconvert i5 dv; ConvertStr i5 true])))
+  /\ lookup TDatetime (registry (fst (run_ops true false fmt0 init_state [ConvertStr i3 true]))) = Some (UnconvDatetime (Some i3))
+  /\ lookup TDatetime (registry (fst (run_ops true true fmt0 init_state [ConvertStr i3 true; Unconvert i5 dv; ConvertStr i5 true])))
      = Some (UnconvDatetime (Some i5))
-  /\ snd (run_ops true fmt0 init_state [ConvertStr i3 true; Unconvert i5 dv; ConvertStr i5 true; Unconvert i3 dv; Unconvert i5 (PV TNone 0); Unconvert i3 (PV TStr 1)])
-     = [OK (OText (T "20240229")); OK (OText (T "20240229")); Err Reject; Err Reject]
-  /\ (let cfg := run_schedule true fmt0 (init_state, map new_thread progs4) sched4 in
+  /\ snd (run_ops true false fmt0 init_state hist6) = [OK (OText (T "20240229")); OK (OText (T "20240229")); Err Reject; Err Reject]
+  /\ snd (run_ops true true fmt_bad init_state hist6) = [OK (OText (T "A")); OK (OText (T "B")); Err Reject; Err Reject]
+  /\ (let cfg := run_schedule true false fmt0 (init_state, map new_thread progs4) sched4 in
       lookup TDatetime (cache (fst cfg)) = Some (UnconvDatetime (Some i3))
       /\ lookup TDatetime (registry (fst cfg)) = Some (UnconvDatetime (Some i5))
       /\ forallb finished (snd cfg) = true
       /\ map (fun th => map d_handler (done th)) (snd cfg) = [[]; [UnconvDatetime (Some i3)]; []; [UnconvDatetime (Some i3); UnconvNone]]
       /\ map (fun th => map d_out (done th)) (snd cfg) = [[]; [OK (OText (T "20240229"))]; []; [OK (OText (T "20240229")); Err Reject]])
-  /\ sem fmt_bad (fst (dispatch (fst (run_ops true fmt_bad init_state [ConvertStr i5 true])) TDatetime)) i3 dv
-     <> sem fmt_bad (fst (dispatch init_state TDatetime)) i3 dv.
+  /\ sem false fmt_bad (fst (dispatch (fst (run_ops true false fmt_bad init_state [ConvertStr i5 true])) TDatetime)) i3 dv
+     <> sem false fmt_bad (fst (dispatch init_state TDatetime)) i3 dv
+  /\ sem true fmt_bad (fst (dispatch (fst (run_ops true true fmt_bad init_state [ConvertStr i5 true])) TDatetime)) i3 dv
+     = sem true fmt_bad (fst (dispatch init_state TDatetime)) i3 dv.
 Proof.
   split; [reflexivity|]. vm_compute. repeat split; try reflexivity. discriminate.
 Qed.
